@@ -26,6 +26,17 @@ func C05(c *Ctx) int {
 			}
 		}
 	}
+	// one activated branch runs straight from the fork to the join (no task on it) while the
+	// others are still busy: the join must not release before they arrive, nor twice
+	for k := 2; k <= 3; k++ {
+		for dpos := -1; dpos <= k; dpos += 2 {
+			for _, db := range []int{0, k - 1} {
+				gen.DirectBranch = db
+				ps = append(ps, gen.GatewayTable("or", k, dpos, 1, -1))
+			}
+		}
+	}
+	gen.DirectBranch = -1
 	capN := 0
 	if c.Quick() {
 		capN = 16
